@@ -910,16 +910,30 @@ func cgenApply(s []byte, m cgenMut) []byte {
 	panic("cgen: bad mutation kind " + m.Kind)
 }
 
+// cgenHot: does a declared length at position p of the valid encoding s reach the
+// allocator of ct's decoder unchecked? Probed with the harmless length 2^16
+// (allocation measured) and with 2^56 (a recoverable "len out of range" panic).
+func cgenHot(ct *cgenType, s []byte, p int) bool {
+	w := cgenApply(s, cgenMut{Kind: "ins", Pos: p, Val: cgenNat16})
+	if vlib.AllocDelta(func() { vlib.Guard(func() { ct.Dec(w) }) }) >= cgenHotAlloc {
+		return true
+	}
+	w = cgenApply(s, cgenMut{Kind: "ins", Pos: p, Val: cgenNat56})
+	pn, msg, _ := vlib.Guard(func() { ct.Dec(w) })
+	return pn && strings.Contains(msg, "out of range")
+}
+
 // cgenMutations enumerates the mutation set of one seed in a fixed order: for
-// each position first the insertions that can only end in an error or a
-// recoverable panic (2^56, 2^64-1: no allocator satisfies them), then 2^16, the
+// each position first the insertion of 2^16 (harmless in size; the harness
+// measures what it allocates), then the insertions that can only end in an
+// error or a recoverable panic (2^56, 2^64-1: no allocator satisfies them), the
 // prefix, the replacements, and last the insertions 2^31 and 2^32.
 func cgenMutations(s []byte, full bool, f func(m cgenMut)) {
 	ins := func(p int, v uint64) { f(cgenMut{Kind: "ins", Pos: p, Val: vlib.Hex(cgenNat(v))}) }
 	for p := 0; p <= len(s); p++ {
+		ins(p, 1<<16)
 		ins(p, 1<<56)
 		ins(p, ^uint64(0))
-		ins(p, 1<<16)
 		if p < len(s) {
 			f(cgenMut{Kind: "prefix", Pos: p})
 			for _, x := range cgenReplLattice(s[p], full) {
@@ -931,7 +945,11 @@ func cgenMutations(s []byte, full bool, f func(m cgenMut)) {
 	}
 }
 
-var cgenNat31, cgenNat32, cgenNat56 = vlib.Hex(cgenNat(1 << 31)), vlib.Hex(cgenNat(1 << 32)), vlib.Hex(cgenNat(1 << 56))
+var cgenNat16, cgenNat31, cgenNat32, cgenNat56 = vlib.Hex(cgenNat(1 << 16)), vlib.Hex(cgenNat(1 << 31)), vlib.Hex(cgenNat(1 << 32)), vlib.Hex(cgenNat(1 << 56))
+
+// cgenHotAlloc: inserting the length 2^16 made the decoder allocate at least this
+// many bytes => the bytes at that position are a length that reaches make().
+const cgenHotAlloc = 60000
 
 // cgenHugeLength: mutations that turn the byte(s) at Pos into a natural number
 // of 2^21 or more elements which, unlike 2^56 and above, the allocator will try
@@ -973,28 +991,30 @@ func cgenChildSpans(ptr reflect.Value, s []byte, a, b int) []cgenSpan {
 	var subs []cgenSubVal
 	cgenSubs(ptr.Elem(), "", true, &subs)
 	var out []cgenSpan
-	seen := map[string]bool{}
+	cursor := a
 	for _, sv := range subs {
 		var e []byte
 		var err error
 		if p, _, _ := vlib.Guard(func() { e, err = sv.ct.Enc(sv.ptr) }); p || err != nil || len(e) == 0 {
 			continue
 		}
-		from := a
-		for {
-			i := bytes.Index(s[from:b], e)
-			if i < 0 {
-				break
-			}
-			k := fmt.Sprintf("%s|%d|%d", sv.ct.Name, from+i, len(e))
-			if !seen[k] {
-				seen[k] = true
-				out = append(out, cgenSpan{sv, from + i, from + i + len(e)})
-			}
-			from = from + i + 1
-			if from >= b {
-				break
-			}
+		// children are visited in encoding order (fields, elements): leftmost match after the
+		// previous child. Map entries are encoded in key order, which the walk only approximates,
+		// so for them the search restarts at the parent's start.
+		from := cursor
+		if strings.Contains(sv.path, "{") {
+			from = a
+		}
+		if from > b {
+			break
+		}
+		i := bytes.Index(s[from:b], e)
+		if i < 0 {
+			continue
+		}
+		out = append(out, cgenSpan{sv, from + i, from + i + len(e)})
+		if from == cursor {
+			cursor = from + i + len(e)
 		}
 	}
 	return out
@@ -1030,6 +1050,10 @@ func cgenLocalise(seed cgenSeed, m cgenMut, pred func(ct *cgenType, input []byte
 				}
 				in = cgenApply(part, cgenMut{Kind: "ins", Pos: m.Pos - sp.a, Val: m.Val})
 			default:
+				continue
+			}
+			if cgenHugeLength(m) && cgenHot(sp.sub.ct, part, m.Pos-sp.a) {
+				// would make the sub-decoder allocate without bound: do not run it in-process
 				continue
 			}
 			if pred(sp.sub.ct, in, part) {
